@@ -17,7 +17,7 @@ from pyvc.values import FIN, BoundV, EnumVal, EnvFn, FuncV, Obj, SFloat, SOpt, S
 
 from . import stateview as sv
 from .state import fk_of, install_state_contracts
-from .world import EPS, G, Ghost, RetryWorld, W, env_raise
+from .world import EPS, G, Ghost, RetryWorld, W, env_raise, trace
 
 K_SYNC = "redress.policy.retry_helpers:_sync_sleep_action"
 K_ASYNC = "redress.policy.retry_helpers:_async_sleep_action"
@@ -104,7 +104,8 @@ def make_contract(is_async):
         st, attempt, decision = kwargs["state"], kwargs["attempt"], kwargs["decision"]
         sleep_fn, before_sleep, sleeper = kwargs["sleep_fn"], kwargs["before_sleep"], kwargs["sleeper"]
         w, g, p = W(it), G(it), it.path
-        site = f"{it.frames[-1].func.key}/call:sleep_action" if it.frames else "call:sleep_action"
+        trace(it, "sleep_action", attempt, decision.fields["sleep_s"], decision.fields["context"], sleep_fn, before_sleep, sleeper)
+        site = f"{it.frames[-1].func.key.replace('_async_', '_sync_')}/call:sleep_action" if it.frames else "call:sleep_action"
         for n, prop, f in sa_requires(it, w, st, attempt, decision, g, sleep_fn, before_sleep):
             p.oblige(f"{site}/requires/{n}", f, prop=prop)
         pre = sv.View(it, st)
